@@ -4,13 +4,21 @@ package main
 // a repeat inside the guaranteed lifetime is a hit.
 
 import (
+	"bytes"
 	"fmt"
 	"net/netip"
+	"os"
 	"strings"
 	"sync"
+	"sync/atomic"
 	"time"
 
+	"github.com/IrineSistiana/mosproxy/internal/cache"
+	"github.com/IrineSistiana/mosproxy/internal/pool"
+	"github.com/IrineSistiana/mosproxy/internal/verifhook"
+
 	"github.com/IrineSistiana/mosproxy/verif/internal/gen"
+	"github.com/IrineSistiana/mosproxy/verif/internal/racelog"
 	"github.com/miekg/dns"
 )
 
@@ -31,12 +39,26 @@ var c07Ranges = []chRange{
 }
 
 func runC07(c *Ctx) {
+	if only := os.Getenv("VERIF_C07_ONLY"); only != "" { // development knob: run a single part
+		switch only {
+		case "stress":
+			c07Stress(c)
+		case "porcupine":
+			c07Porcupine(c)
+		case "pairs":
+			c07Pairs(c)
+		case "history":
+			c07History(c)
+		}
+		return
+	}
 	var wg sync.WaitGroup
 	wg.Add(2)
 	go func() { defer wg.Done(); c07Pairs(c) }()
 	go func() { defer wg.Done(); c07History(c) }()
 	wg.Wait()
 	c07Porcupine(c)
+	c07Stress(c)
 	c07RangeTable(c)
 }
 
@@ -349,5 +371,120 @@ func c07JudgeHistory(c *Ctx, h *chHist, fetches map[string][]*chFetch, ttl int) 
 	c.Ev.Sample(map[string]any{"part": "history", "responses": len(h.Resps), "cache_hits": hits, "fetch_triggering": misses, "ttl": ttl})
 	if hits == 0 && c.ViolationCount() == 0 {
 		c.Inconclusive("history scenario observed no cache hit")
+	}
+}
+
+// ---------------------------------------------------------------- (e) value integrity under overwrite / eviction stress
+
+// c07Stress: writers overwrite a few keys with large values whose every byte is a function of
+// (key, version); readers verify that whatever Get returns is entirely one value of that key.
+// Large values widen the window between looking an entry up and copying its value.
+func c07Stress(c *Ctx) {
+	pool.VerifTakeReports()
+	verifhook.TakeReports()
+	mc, err := cache.NewMemoryCache(c.N(1<<20, 1<<20))
+	if err != nil {
+		c.Inconclusive("NewMemoryCache: " + err.Error())
+		return
+	}
+	defer mc.Close()
+	// A reader may be descheduled between finding an entry and copying its value: make that likely
+	// (delay inside the buffer allocation of large copies). otter reports deletions in batches of 64
+	// write operations, so small hot keys are hammered as well to keep those batches coming.
+	verifhook.Set("pool.get.large", "sleep(5ms,30.0%)")
+	defer verifhook.Set("pool.get.large", "off")
+	const nKeys = 4
+	getsPerReader := c.N(1200, 30000)
+	var stop atomic.Bool
+	var wg sync.WaitGroup
+	mkVal := func(key, ver, size int) []byte {
+		b := byte(key*29 + ver*7 + 1)
+		v := bytes.Repeat([]byte{b}, size)
+		v[0], v[1] = byte(key), byte(ver)
+		v[size-2], v[size-1] = byte(key), byte(ver)
+		return v
+	}
+	for w := 0; w < 2; w++ { // big-value writers
+		wg.Add(1)
+		go func(w int) {
+			defer wg.Done()
+			r := gen.New(c.Seed, "c07stress/w", w)
+			for ver := 0; !stop.Load(); ver++ {
+				k := r.Intn(nKeys)
+				size := gen.Pick(r, []int{3000, 9000, 20000, 48000})
+				now := time.Now()
+				mc.Store([]byte(fmt.Sprintf("stress-key-%d", k)), now, now.Add(time.Minute), mkVal(k, ver&0xff, size), false)
+			}
+		}(w)
+	}
+	for w := 0; w < 2; w++ { // small hot keys: no delay point on their path (values < 2048 bytes)
+		wg.Add(1)
+		go func(w int) {
+			defer wg.Done()
+			r := gen.New(c.Seed, "c07stress/s", w)
+			small := bytes.Repeat([]byte{0x55}, 64)
+			for !stop.Load() {
+				now := time.Now()
+				mc.Store([]byte(fmt.Sprintf("small-%d", r.Intn(64))), now, now.Add(time.Minute), small, false)
+			}
+		}(w)
+	}
+	var hits, misses, bad atomic.Int64
+	var rg sync.WaitGroup
+	for rd := 0; rd < 8; rd++ {
+		rg.Add(1)
+		go func(rd int) {
+			defer rg.Done()
+			r := gen.New(c.Seed, "c07stress/r", rd)
+			for i := 0; i < getsPerReader && bad.Load() == 0; i++ {
+				k := r.Intn(nKeys)
+				v, _, _ := mc.Get([]byte(fmt.Sprintf("stress-key-%d", k)))
+				if v == nil {
+					misses.Add(1)
+					continue
+				}
+				hits.Add(1)
+				ok := len(v) >= 4 && int(v[0]) == k && int(v[len(v)-2]) == k && v[1] == v[len(v)-1]
+				if ok {
+					b := byte(k*29 + int(v[1])*7 + 1)
+					ok = bytes.Count(v[2:len(v)-2], []byte{b}) == len(v)-4
+				}
+				if !ok {
+					if bad.Add(1) == 1 {
+						c.Violation("memcache-foreign-or-torn-value", fmt.Sprintf("MemoryCache.Get(stress-key-%d) returned %d bytes that are not (entirely) a value stored under that key: first bytes %x ... last bytes %x", k, len(v), v[:min(8, len(v))], v[max(0, len(v)-8):]),
+							map[string]any{"fn": "c07Stress", "key": k, "len": len(v)})
+					}
+				}
+				pool.ReleaseBuf(v)
+			}
+		}(rd)
+	}
+	rg.Wait()
+	stop.Store(true)
+	wg.Wait()
+	c.Ev.Eval(int(hits.Load() + misses.Load()))
+	st := pool.VerifGetStats()
+	c.Ev.Count("stress_pool_gets", int64(st.Gets))
+	c.Ev.Count("stress_pool_releases", int64(st.Releases))
+	if _, fired := verifhook.Hits("pool.get.large"); true {
+		c.Ev.Count("stress_delay_point_fired", int64(fired))
+	}
+	n1, n2 := cache.VerifEntryCounters()
+	c.Ev.Count("stress_entries_created", int64(n1))
+	c.Ev.Count("stress_entries_released", int64(n2))
+	c.Ev.Count("stress_gets_hit", hits.Load())
+	c.Ev.Count("stress_gets_miss", misses.Load())
+	c.Ev.Distinct("stress", hits.Load() > 0, misses.Load() > 0)
+	for _, rp := range pool.VerifTakeReports() {
+		c.Violation("sanitizer-report:pool-"+rp.Kind, "pool sanitizer during the cache stress: "+rp.Kind+" at "+rp.Site+" first released at "+rp.Site0, map[string]any{"fn": "c07Stress", "report": rp})
+	}
+	for _, rp := range verifhook.TakeReports() {
+		c.Violation("sanitizer-report:"+rp.Kind, "ownership hook during the cache stress: "+rp.Detail+" "+rp.Stack, map[string]any{"fn": "c07Stress"})
+	}
+	// the race detector sees an unsynchronised lookup/release pair even when the two accesses are far
+	// apart in time (happens-before based), so it decides "holds under concurrent stores, lookups and
+	// evictions" for the cache code much more reliably than waiting for a torn value
+	for key, rs := range racelog.Dedup(selfRaces("/internal/cache.", "router.(*cacheCtl)", "router.cacheKey", "router.packCacheMsg", "router.unpackCacheMsg")) {
+		c.Violation("data-race:cache:"+c20ShortEntry(rs[0]), fmt.Sprintf("data race in the cache code during concurrent Store/Get/eviction (%d reports):\n%s", len(rs), rs[0].Text), map[string]any{"fn": "c07Stress", "key": key, "report": rs[0].Text})
 	}
 }
